@@ -199,7 +199,7 @@ static std::pair<std::string, std::string> parse_and_compare(int ti, const std::
   Heap h(argv, tail);
   REC.stop_after = stop_after;
   shim_parse(ti, (int)argv.size(), h.argv, reset_mode, opterr_val, &REC);
-  if (REC.overflow)  // argv holds at most 8 x 20 characters, so more than C18_MAXEV labels means the loop does not advance
+  if (REC.overflow)  // argv holds at most 8 tokens of <= 20 characters or packs of <= 700: more than C18_MAXEV labels means the loop does not advance
     return {"getopt-runaway", show_table(ti) + " argv=" + show_argv(argv) + ": the GETOPT loop reached more than " + std::to_string(C18_MAXEV) + " labels (does not terminate)"};
   size_t total = ref.ev.size();
   size_t want_n = stop_after >= 0 ? std::min<size_t>((size_t)stop_after, total) : total;
@@ -234,7 +234,7 @@ struct Prng {
   int upto(int n) { return (int)((next() >> 33) % (uint64_t)(n + 1)); }
   template <typename T> const T &pick(const std::vector<T> &v) { return v[(size_t)upto((int)v.size() - 1)]; }
 };
-static const int NCAT = 14;
+static const int NCAT = 15;
 static std::string make_token(const TTable &t, int cat, Prng &r) {
   std::vector<std::string> shorts, longs;
   std::string regchars;
@@ -252,6 +252,18 @@ static std::string make_token(const TTable &t, int cat, Prng &r) {
   auto unreg_short = [&]() { return std::string("-") + unreg[(size_t)r.upto((int)unreg.size() - 1)]; };
   static const std::vector<std::string> vals = {"v", "", "a=b", "-", "--", "-x", "=", "val ue", "--foo", "1"};
   switch (cat) {
+  case 14: {  // one argv element packing hundreds of short options (scripts that assemble flags do this), optionally ending in an option with its argument attached
+    std::string noarg, witharg;
+    for (auto &o : t.opts)
+      if (std::string(o.name).size() == 2) (o.hasarg ? witharg : noarg).push_back(o.name[1]);
+    if (noarg.empty()) return shorts.empty() ? unreg_short() : r.pick(shorts);
+    static const int NS[] = {100, 254, 255, 256, 257, 300, 511, 512, 600};
+    int n = NS[r.upto(8)];
+    std::string s = "-";
+    for (int i = 0; i < n; i++) s.push_back(noarg[(size_t)r.upto((int)noarg.size() - 1)]);
+    if (!witharg.empty() && r.upto(1)) s += std::string(1, witharg[(size_t)r.upto((int)witharg.size() - 1)]) + (r.upto(1) ? "VAL" : "");
+    return s;
+  }
   case 0: return shorts.empty() ? unreg_short() : r.pick(shorts);
   case 1: return unreg_short();
   case 2: {
@@ -304,7 +316,7 @@ static rc::Gen<std::vector<std::string>> gen_argv(int table) {
     int n = *rc::gen::weightedOneOf<int>({{1, rc::gen::just(0)}, {5, range<int>(1, 3)}, {4, range<int>(4, 6)}, {2, range<int>(7, 8)}});
     std::vector<std::string> v;
     for (int i = 0; i < n; i++) {
-      int cat = *rc::gen::weightedElement<int>({{10, 0}, {4, 1}, {14, 2}, {6, 3}, {10, 4}, {8, 5}, {4, 6}, {4, 7}, {3, 8}, {5, 9}, {5, 10}, {3, 11}, {8, 12}, {3, 13}});
+      int cat = *rc::gen::weightedElement<int>({{10, 0}, {4, 1}, {14, 2}, {6, 3}, {10, 4}, {8, 5}, {4, 6}, {4, 7}, {3, 8}, {5, 9}, {5, 10}, {3, 11}, {8, 12}, {3, 13}, {1, 14}});
       Prng r(*rc::gen::arbitrary<uint32_t>());
       v.push_back(make_token(TABLES[(size_t)table], cat, r));
     }
@@ -316,7 +328,8 @@ static rc::Gen<std::vector<std::string>> gen_argv(int table) {
 // Case: "cfg" a={tableA, tableB, resetA, resetB, opterr, stopA, argv0} ; "a" b=token ... ; "b" b=token ...
 static std::string clean_token(std::string s) {
   if (s.find('\0') != std::string::npos) s = s.substr(0, s.find('\0'));
-  if (s.size() > 20) s.resize(20);
+  // ordinary tokens have at most 20 characters; a pack of short options ("-" followed by anything but '-') may have up to 700
+  if (s.size() > 20 && !(s.size() <= 700 && s[0] == '-' && s[1] != '-')) s.resize(20);
   return s;
 }
 static rc::Gen<Case> gen_parse(int) {
